@@ -9,6 +9,7 @@ package schedshard
 
 import (
 	"bytes"
+	"crypto/sha256"
 	"errors"
 	"fmt"
 	"io"
@@ -23,6 +24,7 @@ import (
 	"github.com/nspcc-dev/neofs-node/pkg/local_object_storage/shard"
 	"github.com/nspcc-dev/neofs-node/pkg/local_object_storage/writecache"
 	"github.com/nspcc-dev/neofs-node/verif/lib/sched"
+	"github.com/nspcc-dev/neofs-sdk-go/checksum"
 	cid "github.com/nspcc-dev/neofs-sdk-go/container/id"
 	"github.com/nspcc-dev/neofs-sdk-go/object"
 	oid "github.com/nspcc-dev/neofs-sdk-go/object/id"
@@ -45,11 +47,11 @@ type Stor struct {
 var ErrInjected = errors.New("injected blobstor failure")
 
 func (m Stor) pt(what string) {
-	if s := sched.Active(); s != nil {
-		s.Point("blob." + what)
-	}
 	if m.w.OnStep != nil {
 		m.w.OnStep("blob." + what)
+	}
+	if s := sched.Active(); s != nil {
+		s.Point("blob." + what)
 	}
 }
 func (m Stor) fail(what string) bool {
@@ -140,11 +142,11 @@ func New(s *sched.S, root string, o Opts) (*World, error) {
 	w.FST = fstree.New(fstree.WithPath(w.BlobDir()), fstree.WithDepth(1), fstree.WithPerm(0o700),
 		fstree.WithCombinedCountLimit(1), fstree.WithNoSync(true))
 	meta.VerifHook = func(db *meta.DB, name string, args []any) ([]any, bool) {
-		if s := sched.Active(); s != nil {
-			s.Point("meta." + name)
-		}
 		if w.OnStep != nil {
 			w.OnStep("meta." + name)
+		}
+		if s := sched.Active(); s != nil {
+			s.Point("meta." + name)
 		}
 		return nil, false
 	}
@@ -209,6 +211,7 @@ func Obj(i, n int) *object.Object {
 	p := bytes.Repeat([]byte{byte('a' + i)}, n)
 	o.SetPayload(p)
 	o.SetPayloadSize(uint64(n))
+	o.SetPayloadChecksum(checksum.NewSHA256(sha256.Sum256(p)))
 	return o
 }
 
@@ -219,6 +222,7 @@ func Tombstone(i, target int, exp uint64) *object.Object {
 	v := version.Current()
 	o.SetVersion(&v)
 	o.AssociateDeleted(OID(target))
+	o.SetPayloadChecksum(checksum.NewSHA256(sha256.Sum256(nil)))
 	if exp > 0 {
 		o.SetAttributes(object.NewAttribute(object.AttributeExpirationEpoch, fmt.Sprint(exp)))
 	}
